@@ -421,3 +421,78 @@ def judge_name(reported: str, expected_names, verbatim) -> str:
     if reported != up and reported not in verbatim:
         return "lower"
     return "other"
+
+
+# ---- 4. quoted identifiers whose letter case is the variable ----------------------------------------------------------
+# "Double-quoted identifiers are reported exactly as written": two statements that differ only in the letter case of a
+# quoted identifier are two different statements and each reports its own spelling, whatever was executed before in
+# the session. A *verbatim template* writes such an identifier as "<word>" (a slot): "<total>" is rendered "total",
+# "TOTAL", "Total", "tOtAl" (forms l, u, c, a of `spell`). A slot word that occurs several times is ONE slot (definition
+# and reference of a name the statement defines itself are re-spelled together: written differently they would be two
+# different identifiers, and the reference would not resolve in Snowflake).
+
+_VSLOT = re.compile(r'"<([A-Za-z_][A-Za-z0-9_]*)>"')
+
+
+def vslots(template: str) -> list[str]:
+    """slot words of a verbatim template in order of first occurrence"""
+    out = []
+    for w in _VSLOT.findall(template):
+        if w != w.lower():
+            raise ValueError(f"slot words are written in lower case: {w!r}")
+        if len({spell(w, f) for f in FORMS}) != len(FORMS):
+            raise ValueError(f"the forms of slot word {w!r} coincide (it needs two letters)")
+        if w not in out:
+            out.append(w)
+    return out
+
+
+def vrender(template: str, forms) -> str:
+    """the statement with its slots written in `forms` (one form per slot of vslots(template), or one for all)"""
+    slots = vslots(template)
+    if isinstance(forms, str):
+        forms = (forms,) * len(slots)
+    if len(forms) != len(slots):
+        raise ValueError("one form per slot")
+    by = dict(zip(slots, forms))
+    return _VSLOT.sub(lambda m: '"' + spell(m.group(1), by[m.group(1)]) + '"', template)
+
+
+def vreported(spelled_columns, template: str, forms) -> tuple:
+    """the names Snowflake reports for result columns spelled like this (slots as in the template, the rest as the
+    statement writes them): quoted -> verbatim, unquoted -> upper case"""
+    slots = vslots(template)
+    if isinstance(forms, str):
+        forms = (forms,) * len(slots)
+    by = dict(zip(slots, forms))
+    out = []
+    for c in spelled_columns:
+        m = _VSLOT.fullmatch(c)
+        out.append(spell(m.group(1), by[m.group(1)]) if m else fold(c))
+    return tuple(out)
+
+
+def vspellings(nslots: int, tier: str) -> list[tuple]:
+    """form assignments of a verbatim template: quick = every slot in the same form (4) + one slot in UPPER, the others
+    lower; thorough = all 4^n."""
+    if nslots < 1:
+        raise ValueError("a verbatim template has a slot")
+    if tier != "quick":
+        return list(itertools.product(FORMS, repeat=nslots))
+    out = [(f,) * nslots for f in FORMS]
+    for k in range(nslots):
+        s = tuple("u" if i == k else "l" for i in range(nslots))
+        if s not in out:
+            out.append(s)
+    return out
+
+
+def vhistories(spellings: list[tuple], tier: str) -> list[tuple]:
+    """histories of spellings executed one after the other in one session: every ordered pair of two different
+    spellings (so: both orders); thorough adds, over the whole-statement spellings (every slot in the same form), the
+    histories of three with neighbours different (A B A: back to the first; A B C)."""
+    out = [(a, b) for a in spellings for b in spellings if a != b]
+    if tier != "quick":
+        whole = [s for s in spellings if len(set(s)) == 1]
+        out += [(a, b, c) for a in whole for b in whole for c in whole if a != b and b != c]
+    return out
